@@ -73,6 +73,7 @@ def plan(tier, seed):
     shards.append(("flat",))
     for gi in (3, 12, 22):
         shards.append(("rgpositions", gi))
+        shards.append(("rgubis", gi))
     shards.append(("exact",))
     shards.append(("callers",))
     shards.append(("rgrefine",))
@@ -680,6 +681,73 @@ def _run_rgpositions(desc):
     return sh
 
 
+def _run_rgubis(desc):
+    """refinegrains.refineubis (the matrix of every grain refitted over its own peaks, as the fitting loops call it between position
+    steps): three grains at three different positions, orientations 0.05 degrees off, assignlabels, then refineubis (twice: the second
+    pass starts from the state the first one left): every grain's matrix is the least-squares solution over the peaks carrying its
+    label for the g-vectors at ITS position, and the counts left on the grains are those of the labels"""
+    _, gi = desc
+    import io, contextlib, shutil
+    from ImageD11 import refinegrains, transform as tr
+    from vt.props import c09
+    sh = Shard()
+    pars = c09.geometries("quick")[gi]
+    truth = c09.true_grains(3, 1)
+    peaks = c09.simulate(tr, pars, truth)
+    start = [(np.dot(u, O.rotation_from_axis_angle((1, -2, 1 + k), 0.05).T), t.copy()) for k, (u, t) in enumerate(truth)]
+    wd = os.path.join(c09.WORK, "c06_ru_%d" % os.getpid())
+    shutil.rmtree(wd, ignore_errors=True)
+    os.makedirs(wd)
+    try:
+        fn = os.path.join(wd, "p.flt")
+        with open(fn, "w") as fh:
+            fh.write("#  sc  fc  omega  Number_of_pixels  avg_intensity  sum_intensity\n")
+            for k in range(len(peaks)):
+                fh.write("%.4f  %.4f  %.4f  %.0f  %.4f  %.4f\n" % (peaks[k, 0], peaks[k, 1], peaks[k, 2], 10, 100.0, 1000.0))
+        with contextlib.redirect_stdout(io.StringIO()):
+            o = refinegrains.refinegrains(tolerance=0.05, OmFloat=False)
+            o.parameterobj.set_parameters(dict(pars))
+            o.loadfiltered(fn)
+            for gidx, (ubi, t) in enumerate(start):
+                o.grainnames.append(gidx)
+                o.ubisread[gidx] = ubi.copy()
+                o.translationsread[gidx] = t.copy()
+            o.generate_grains()
+            o.assignlabels()
+        col = o.scandata[fn]
+        lab = np.asarray(col.labels).astype(int).copy()
+        det = {k: pars[k] for k in ("distance", "y_center", "z_center", "y_size", "z_size", "tilt_x", "tilt_y", "tilt_z", "o11", "o12", "o21", "o22")}
+        xyz = tr.compute_xyz_lab(np.array([col.sc, col.fc]), **det)
+        om = np.asarray(col.omega) * pars["omegasign"]
+        for rnd in (1, 2):
+            with contextlib.redirect_stdout(io.StringIO()):
+                o.refineubis(quiet=True)
+            for gidx in range(len(start)):
+                g = o.grains[(gidx, fn)]
+                t = np.asarray(g.translation, float)
+                tth, eta = tr.compute_tth_eta_from_xyz(xyz, om, t_x=t[0], t_y=t[1], t_z=t[2], wedge=pars["wedge"], chi=pars["chi"])
+                gv = tr.compute_g_vectors(tth, eta, om, pars["wavelength"], wedge=pars["wedge"], chi=pars["chi"]).T
+                sel = lab == gidx
+                case = {"kind": "rgubis", "geometry": gi, "grain": gidx, "refineubis_calls": rnd}
+                if sel.sum() < 10:
+                    sh.violation("refineubis:grain-has-no-peaks", case, {"peaks": int(sel.sum())})
+                    continue
+                fit = oracle(np.asarray(g.ubi, float), np.ascontiguousarray(gv), 0.0, sel=sel)
+                if fit.get("status") != "ok":
+                    sh.borderline += 1
+                    continue
+                if not np.allclose(np.asarray(g.ubi, float), fit["ubi"], rtol=1e-7, atol=max(fit["atol"], 1e-10)):
+                    sh.violation("refineubis:matrix-is-not-the-least-squares-fit-over-the-grain's-peaks-at-the-grain's-position", case,
+                                 {"max_diff": float(np.abs(np.asarray(g.ubi, float) - fit["ubi"]).max()), "labelled_peaks": int(sel.sum())})
+                sh.evaluations += 1
+                sh.nontrivial += 1
+        sh.outcomes.add(("rgubis", gi))
+        sh.sample(case, limit=1)
+    finally:
+        shutil.rmtree(wd, ignore_errors=True)
+    return sh
+
+
 def _run_rgrefine(desc):
     """refinegrains.refine (the method the position refinement calls on every step): it returns the refined matrix and leaves the
     matrix it was given alone, so that calling it again with the same array gives the same answer"""
@@ -724,7 +792,7 @@ def _run_rgrefine(desc):
 
 
 def run_shard(desc):
-    return {"rgpositions": _run_rgpositions, "flat": _run_flat, "indexer_refine": _run_indexer_refine, "reassign": _run_reassign, "callers": _run_callers, "exact": _run_exact, "rgrefine": _run_rgrefine, "multi": _run_multi, "assigned": _run_assigned, "long": _run_long, "getind": _run_getind}[desc[0]](desc)
+    return {"rgubis": _run_rgubis, "rgpositions": _run_rgpositions, "flat": _run_flat, "indexer_refine": _run_indexer_refine, "reassign": _run_reassign, "callers": _run_callers, "exact": _run_exact, "rgrefine": _run_rgrefine, "multi": _run_multi, "assigned": _run_assigned, "long": _run_long, "getind": _run_getind}[desc[0]](desc)
 
 
 def replay(case):
@@ -744,6 +812,8 @@ def replay(case):
         sh.violations = [v for v in _run_exact(("exact",)).violations if v["case"]["tol"] == case["tol"] and v["case"]["scale"] == case["scale"]]
     elif case["kind"] == "rgrefine":
         sh.violations = [v for v in _run_rgrefine(("rgrefine",)).violations if v["case"]["ubi"] == case["ubi"]]
+    elif case["kind"] == "rgubis":
+        sh.violations = [v for v in _run_rgubis(("rgubis", case["geometry"])).violations if v["case"]["grain"] == case["grain"]]
     elif case["kind"] == "rgpositions":
         sh.violations = [v for v in _run_rgpositions(("rgpositions", case["geometry"])).violations if v["case"]["grain"] == case["grain"]]
     elif case["kind"] == "flat":
